@@ -98,12 +98,29 @@ type Obs struct {
 	Tip      []byte
 	Irrev    int64
 	Window   int64
-	Keys     map[string][]byte // value, nil if absent / deleted
-	KeyVers  map[string]string // "txid/offset"
-	Utxo     [][2][]byte       // raw U table
-	Pool     []string          // ids of pending transactions, sorted
-	HasTx    map[string]bool   // HasTx for the ids of interest
+	Keys     map[string][]byte  // value, nil if absent / deleted
+	KeyVers  map[string]string  // "txid/offset"
+	Utxo     [][2][]byte        // raw U table
+	Pool     []string           // ids of pending transactions, sorted
+	HasTx    map[string]bool    // HasTx for the ids of interest
+	Sel      map[string]*SelObs // with ObserveSelect: what SelectUtxos hands out for the whole balance
 }
+
+type SelObs struct {
+	Refused bool
+	Total   *big.Int
+	Items   []SelItem // sorted by Ref
+}
+
+type SelItem struct {
+	Ref    string // txid/offset
+	Amount *big.Int
+	Frozen int64
+}
+
+// ObserveSelect adds, per address, the outcome of SelectUtxos(address, its balance, no locking) to
+// the observation: the outputs the node would hand to a wallet (served from the output cache first).
+var ObserveSelect bool
 
 var TxsOfInterest = []string{"t1", "t2", "bad"}
 
@@ -130,6 +147,26 @@ func Observe(s *state.State) *Obs {
 			b = big.NewInt(-1)
 		}
 		o.Balances[a] = b
+	}
+	if ObserveSelect {
+		o.Sel = map[string]*SelObs{}
+		for _, a := range Addrs {
+			so := &SelObs{Total: big.NewInt(0)}
+			o.Sel[a] = so
+			if o.Balances[a].Sign() <= 0 {
+				continue
+			}
+			ins, _, total, err := s.SelectUtxos(a, new(big.Int).Set(o.Balances[a]), false, false)
+			if err != nil {
+				so.Refused = true
+				continue
+			}
+			so.Total = total
+			for _, in := range ins {
+				so.Items = append(so.Items, SelItem{string(in.RefTxid) + "/" + string([]byte{byte('0' + in.RefOffset)}), new(big.Int).SetBytes(in.Amount), in.FrozenHeight})
+			}
+			sort.Slice(so.Items, func(i, j int) bool { return so.Items[i].Ref < so.Items[j].Ref })
+		}
 	}
 	o.Total = s.GetTotal()
 	m := s.GetMeta()
@@ -179,6 +216,18 @@ func Same(a, b *Obs, assert func(cond bool, label string)) {
 	}
 	for _, id := range TxsOfInterest {
 		assert(a.HasTx[id] == b.HasTx[id], "same-pool-membership")
+	}
+	if a.Sel != nil && b.Sel != nil {
+		for _, ad := range Addrs {
+			x, y := a.Sel[ad], b.Sel[ad]
+			ok := x.Refused == y.Refused && x.Total.Cmp(y.Total) == 0 && len(x.Items) == len(y.Items)
+			if ok {
+				for i := range x.Items {
+					ok = ok && x.Items[i].Ref == y.Items[i].Ref && x.Items[i].Amount.Cmp(y.Items[i].Amount) == 0 && x.Items[i].Frozen == y.Items[i].Frozen
+				}
+			}
+			assert(ok, "same-selectable-outputs")
+		}
 	}
 	assert(len(a.Utxo) == len(b.Utxo), "same-number-of-unspent-outputs")
 	if len(a.Utxo) == len(b.Utxo) {
